@@ -381,3 +381,109 @@ pub fn c02(vectors: &[Value], seed: u64, max_exh: usize, nrandom: usize) -> Vec<
     }
     out
 }
+
+// ---------------------------------------------------------------------------------------------
+// C03: hostile bytes into the bare reader stack (runs on a thread with tokio's default 2 MiB stack)
+
+fn bytes_of(v: &Value) -> Vec<u8> {
+    if let Some(s) = v.as_str() {
+        return rc::unhex(s);
+    }
+    v.as_array().map(|a| a.iter().filter_map(|x| x.as_u64()).map(|x| x as u8).collect()).unwrap_or_default()
+}
+
+/// expands a compact description of a large structured input
+fn big_input(v: &Value) -> (Vec<u8>, u64) {
+    // {"big":"more_frames","k":200000} | {"big":"long_size","size":"ffffffffffffff00","body":100}
+    let mut b = rc::greeting();
+    let mut maxmsgs = 0u64;
+    match v["big"].as_str().unwrap_or("") {
+        "more_frames" => {
+            let k = v["k"].as_u64().unwrap_or(1000);
+            let fl = v["flag"].as_u64().unwrap_or(1) as u8;
+            for _ in 0..k {
+                b.extend_from_slice(&[fl, 1, 0x41]);
+            }
+            if v["finish"].as_bool().unwrap_or(false) {
+                b.extend_from_slice(&[0, 0]);
+                maxmsgs = 1;
+            }
+            if fl & 1 == 0 {
+                maxmsgs = k;
+            }
+        }
+        "long_size" => {
+            b.push(v["flag"].as_u64().unwrap_or(2) as u8);
+            b.extend(bytes_of(&v["size"]));
+            b.extend(std::iter::repeat(0x42).take(v["body"].as_u64().unwrap_or(0) as usize));
+            maxmsgs = 1;
+        }
+        "many_messages" => {
+            let k = v["k"].as_u64().unwrap_or(1000);
+            for _ in 0..k {
+                b.extend_from_slice(&[0, 1, 0x43]);
+            }
+            maxmsgs = k;
+        }
+        _ => {}
+    }
+    (b, maxmsgs)
+}
+
+pub fn c03(vectors: &[Value], progress: Option<String>, out_path: String) -> usize {
+    use std::io::Write;
+    let vectors = vectors.to_vec();
+    let h = std::thread::Builder::new()
+        .stack_size(2 * 1024 * 1024)
+        .spawn(move || {
+            // results are written as they are produced: if this process dies, what it had finished survives
+            let mut f = std::fs::File::create(&out_path).expect("create out");
+            let mut n = 0usize;
+            let mut emit = |e: Value| {
+                let _ = writeln!(f, "{}", e);
+                let _ = f.flush();
+                n += 1;
+            };
+            for (i, v) in vectors.iter().enumerate() {
+                if let Some(p) = &progress {
+                    let _ = std::fs::write(p, format!("{}", i));
+                }
+                if v.get("big").is_some() {
+                    let (bytes, maxmsgs) = big_input(v);
+                    let base = crate::alloc::window_start();
+                    let r = catch_unwind(AssertUnwindSafe(|| feed_partition(&bytes, &[], true)));
+                    let peak = crate::alloc::window_peak(base);
+                    let (panic, nmsgs) = match &r {
+                        Ok((_, items, _)) => (false, items.iter().filter(|(s, _)| s.is_array()).count()),
+                        Err(_) => (true, 0),
+                    };
+                    emit(json!({"ev":"hostile_big","id":i,"what":v,"fed":bytes.len(),"peak":peak,"panic":panic,"nmsgs":nmsgs,"maxmsgs":maxmsgs}));
+                    continue;
+                }
+                let raw = v.get("raw").is_some();
+                let tail = if raw { bytes_of(&v["raw"]) } else { bytes_of(&v["b"]) };
+                let mut bytes = if raw { vec![] } else { rc::greeting() };
+                bytes.extend_from_slice(&tail);
+                let cuts: Vec<usize> = v.get("cuts").and_then(|c| c.as_array()).map(|a| a.iter().filter_map(|x| x.as_u64()).map(|x| x as usize).collect()).unwrap_or_default();
+                let base = crate::alloc::window_start();
+                let r = catch_unwind(AssertUnwindSafe(|| feed_partition(&bytes, &cuts, true)));
+                let peak = crate::alloc::window_peak(base);
+                let (panic, msgs, errs) = match &r {
+                    Ok((_, items, _)) => (
+                        false,
+                        items.iter().filter(|(s, _)| s.is_array()).map(|(s, _)| s.clone()).collect::<Vec<Value>>(),
+                        items.iter().filter(|(s, _)| s.as_str().map(|x| x.starts_with("ERR")).unwrap_or(false)).count(),
+                    ),
+                    Err(_) => (true, vec![], 0),
+                };
+                let mut e = json!({"ev":"hostile","id":i,"b":tail,"fed":bytes.len(),"peak":peak,"panic":panic,"msgs":msgs,"errs":errs});
+                if raw {
+                    e["raw"] = json!(true);
+                }
+                emit(e);
+            }
+            n
+        })
+        .expect("spawn");
+    h.join().unwrap_or(0)
+}
